@@ -8,6 +8,7 @@ falcon.App; the two lists must be equal (so a missing, doubled or reordered call
 The interpreter shares no code with falcon.
 """
 import itertools
+import os
 
 from hypothesis import strategies as st
 
@@ -299,7 +300,7 @@ def build_resource(case, trace):
         on_get = deco[hooks[k]](_hook(hooks[k], site, trace, actions.get(site, 'return'), asyn))(on_get)
     # with a suffix the responder is called on_get_<suffix> (add_route(..., suffix=...)): class-level hooks apply to it
     # just the same, whatever identifier characters the suffix is made of
-    name = 'on_get' + ('_' + case['suffix'] if case.get('suffix') else '')
+    name = 'on_%s' % case.get('method', 'GET').lower() + ('_' + case['suffix'] if case.get('suffix') else '')
     cls = type('Resource', (object,), {name: on_get})
     if case.get('inherit'):
         # the responder is inherited: class-level hooks are applied to a subclass that defines nothing itself
@@ -364,10 +365,10 @@ def run_request_case(case):
     app = build_app(case, trace)
     path = PATHS[case['route']]
     if case['stack'] == 'asgi':
-        res = A.call(app, A.build_scope(method='GET', raw_path=path), monitor=False)
+        res = A.call(app, A.build_scope(method=case.get('method', 'GET'), raw_path=path), monitor=False)
         started = res.start is not None
     else:
-        res = W.call(app, W.build_environ(method='GET', raw_path=path), monitor=False)
+        res = W.call(app, W.build_environ(method=case.get('method', 'GET'), raw_path=path), monitor=False)
         started = res.status is not None
     expected, reached, skipped = ref_trace(case)
     if case.get('app_handler') == 'plain_error' and any(e[0] == 'handler' for e in expected):
@@ -503,10 +504,24 @@ class HookSuffixes(Suite):
                         yield base
                         yield dict(base, actions={'chook0': 'http_error'})
                         yield dict(base, inherit=True)
+        # every HTTP method has responders that hooks apply to - the standard ones, the WebDAV ones, and those a process
+        # was started with through FALCON_CUSTOM_HTTP_METHODS (documented; read when falcon is imported)
+        custom = sorted(set(m.strip().upper() for m in os.environ.get('FALCON_CUSTOM_HTTP_METHODS', '').split(',') if m.strip()))
+        for method in ['POST', 'DELETE', 'PROPFIND', 'VERSION-CONTROL'] + custom:
+            for stack in ('wsgi', 'asgi'):
+                for ch in (['before'], ['after'], ['before', 'after']):
+                    for suffix in (None, 'items'):
+                        base = {'stack': stack, 'independent': True, 'route': 'resource', 'mw': mw, 'class_hooks': ch,
+                                'method_hooks': ['before'], 'app_handler': None, 'actions': {}, 'suffix': suffix, 'method': method,
+                                'env_case': method in custom}
+                        yield base
+                        yield dict(base, inherit=True)
 
     def run(self, case):
         expected, reached, skipped = run_request_case(case)
         info = request_info(case, expected, reached, skipped)
+        if case.get('method'):
+            return Info(True, info.labels + ('method:' + case['method'],))
         return Info(True, info.labels + ('suffix:' + ('ascii_alnum' if case['suffix'].isascii() and case['suffix'].isalnum()
                                                       else 'underscores' if case['suffix'].isascii() else 'non_ascii'),))
 
